@@ -32,7 +32,8 @@ Not judged: speeds other than FS in fs_only configurations (the statement exclud
 Monitors: one per-cycle judge per observed output group (timer strobes; token ready; receiver ready, modelled with the
   receiver's arm/disarm gating), fed with the sampled start events and the sampled speed; all interfaces of one timer
   must show identical strobes.
-Known finding (unchanged tree): at speed LOW the timer uses the HIGH-speed table (findings/C05.md).  Classifier: a
+Finding (original tree; fixed in /repo by commit 13804e4): at speed LOW the timer used the HIGH-speed table
+  (findings/C05.md).  Classifier, kept for regression: a
   second judge whose table differs only in "LS row := HS row" runs beside the specification judge; the mechanism
   `<where>ls_follows_hs_table` is reported only when the specification judge is contradicted at speed LOW while the second
   judge still explains every judged cycle; anything else keeps `<where><strobe>_{spurious,missing}_<speed>`.
